@@ -69,5 +69,14 @@ func Avg(data []ArgsType) string {
 		f := d.Float()
 		total += f
 	}
-	return strconv.FormatFloat(total/float64(len(data)), 'f', 8, 64)
+	avg := total / float64(len(data))
+	if math.IsInf(total, 0) {
+		// the sum overflowed float64 although the average may be representable:
+		// average the scaled terms instead
+		avg = 0.0
+		for _, d := range data {
+			avg += d.Float() / float64(len(data))
+		}
+	}
+	return strconv.FormatFloat(avg, 'f', 8, 64)
 }
